@@ -593,8 +593,8 @@ fn scenarios(thorough: bool) -> Vec<Scenario> {
     let mut v = vec![Scenario { lean: false, with_break: true, name: "empty".into(), k: if thorough { 4 } else { 3 }, prefill: 0, bg_candidates: vec![], bg_budget: 0 }];
     for j in 0..=2usize {
         if thorough {
-            // full alphabet with break, two requests alive, two background answers out of eight boundary ids
-            v.push(Scenario { lean: false, with_break: true, name: format!("prefill-32768-minus-{j}-full-k2"), k: 2, prefill: 32768 - j, bg_candidates: vec![0, 63, 64, 127, 128, 32765, 32766, 32767], bg_budget: 2 });
+            // full alphabet with break, two requests alive, one background answer out of eight boundary ids
+            v.push(Scenario { lean: false, with_break: true, name: format!("prefill-32768-minus-{j}-full-k2"), k: 2, prefill: 32768 - j, bg_candidates: vec![0, 63, 64, 127, 128, 32765, 32766, 32767], bg_budget: 1 });
             // three requests alive with the lean alphabet
             v.push(Scenario { lean: true, with_break: false, name: format!("prefill-32768-minus-{j}-lean-k3"), k: 3, prefill: 32768 - j, bg_candidates: vec![0, 63, 64, 32767], bg_budget: 1 });
         } else {
@@ -692,7 +692,7 @@ fn main() {
     let per_scenario_m = &per_scenario_m;
     scope.spawn(move || {
         let m = M::new(sc.k, sc.prefill, sc.bg_candidates.clone(), sc.bg_budget, sc.with_break, sc.lean);
-        let opts = BfsOpts { max_depth: 200, max_states: 3_000_000, wall: std::time::Duration::from_secs(if thorough { 900 } else { 50 }), jobs, max_violations: 8 };
+        let opts = BfsOpts { max_depth: 200, max_states: 3_000_000, wall: std::time::Duration::from_secs(if thorough { 2400 } else { 50 }), jobs, max_violations: 8 };
         let t0 = std::time::Instant::now();
         let res = bfs(&CatchModel(&m), &opts);
         for v in &res.violations {
